@@ -22,7 +22,7 @@ import (
 
 const prop = "C08"
 
-var faults = []string{"stall", "eof", "ioerr", "ioerr+data", "oversize-burst", "oversize-by-1", "oversize-by-2", "oversize-by-4", "oversize-drip", "write-error", "setwritedeadline-error", "cancel", "cancel-before", "flush-error"}
+var faults = []string{"stall", "eof", "ioerr", "ioerr+data", "oversize-burst", "oversize-by-1", "oversize-by-2", "oversize-by-4", "oversize-drip", "write-error", "setwritedeadline-error", "cancel", "cancel-before", "cancel-before+reply", "flush-error"}
 
 type Case struct {
 	Kind    int      `json:"kind"`
@@ -73,7 +73,7 @@ func (f *faulty) Read(t *clientx.Transport, bufLen int) clientx.ReadAnswer {
 	first := !f.fired
 	f.fired = true
 	switch f.fault {
-	case "stall", "write-error", "setwritedeadline-error", "cancel-before", "flush-error":
+	case "stall", "write-error", "setwritedeadline-error", "cancel-before", "cancel-before+reply", "flush-error":
 		return f.silent()
 	case "eof":
 		return clientx.ReadAnswer{Err: io.EOF, Label: "eof"}
@@ -143,7 +143,7 @@ const readTimeout = 5 * time.Millisecond
 func opts(c Case) clientx.Options {
 	o := clientx.Options{ReadTimeout: readTimeout}
 	switch c.Fault {
-	case "cancel-before":
+	case "cancel-before", "cancel-before+reply":
 		o.CancelBefore = true
 	case "flush-error":
 		o.FlushErr = errInjected
@@ -192,7 +192,7 @@ func judge(sc clientx.Sc, run clientx.Run, c Case, res *ev.Result) (nontrivial b
 			}
 		}
 	}
-	cancelled = c.Fault == "cancel-before"
+	cancelled = c.Fault == "cancel-before" || c.Fault == "cancel-before+reply"
 	if c.Fault == "cancel" {
 		for _, p := range explorePoints(run) {
 			if p == "cancel" {
@@ -345,6 +345,12 @@ func execute(sc clientx.Sc, c Case, x *explore.Ctx) clientx.Run {
 var lastFired bool
 
 func run(tier string, shard, nsh int, res *ev.Result) {
+	if shard == 0 {
+		nc := sequenceCheck(res)
+		res.Add("sequence_calls", nc)
+		res.Add("evaluations", nc)
+		res.Axis("request calls after a failed call on the same client", "4 client kinds x {timeout, two timeouts, cancelled context, EOF before the reply}", nc)
+	}
 	thorough := tier == "thorough"
 	scs := scenarios(thorough)
 	var execs, points, nontrivial int64
@@ -362,6 +368,9 @@ func run(tier string, shard, nsh int, res *ev.Result) {
 			for p := 0; p <= n; p++ {
 				if (fault == "write-error" || fault == "setwritedeadline-error" || fault == "cancel-before") && p > 0 {
 					break
+				}
+				if fault == "cancel-before+reply" && p < n {
+					continue // the context is cancelled before the call and the transport answers normally (whole reply, or cut once)
 				}
 				job++
 				if job%nsh != shard {
@@ -464,6 +473,10 @@ func outcomeOf(run clientx.Run) string {
 }
 
 func replay(check string, raw json.RawMessage, res *ev.Result) {
+	if check == "sequence" {
+		sequenceCheck(res)
+		return
+	}
 	var c Case
 	json.Unmarshal(raw, &c)
 	for _, sc := range scenarios(true) {
